@@ -77,6 +77,7 @@ SELECTORS = [
     ("r.f", lambda d: bool(d.get("f", False))),
     ("r.extra == 'e1' or r.n == 4", lambda d: d.get("extra", M) == "e1" or d.get("n", M) == 4),
     ("'red' in r.tags", lambda d: "tags" in d and "red" in d["tags"]),
+    ("r.s == 'NOT FOUND' or r.q == 'IN OR OUT'", lambda d: d.get("s", M) == "NOT FOUND" or d.get("q", M) == "IN OR OUT"),
     # generator expressions: the engines disagree on records that lack the field (C08), so these two are
     # only drawn for inputs in which every record has it (see generate)
     ("any(t == 'red' for t in r.tags)", lambda d: any(t == "red" for t in d["tags"])),
@@ -101,9 +102,9 @@ def gen_rec(rng, i, only=None):
     t = lambda h: {"$dt": (G + _dt.timedelta(hours=h)).replace(tzinfo=None).isoformat(), "off": 0}  # noqa: E731
     n = rng.choice([0, 1, 2, 3, 4])  # never None: ordering comparisons with None are selector semantics (C07), not slicing
     if k == "A":
-        vals = [rng.choice(["x", "y", "z", "-rf /tmp/x", "=SUM(A1:A9)"]), n if n is not None else 1, t(i)]
+        vals = [rng.choice(["x", "y", "z", "-rf /tmp/x", "=SUM(A1:A9)", "NOT FOUND", "not FOUND"]), n if n is not None else 1, t(i)]
     elif k == "B":
-        vals = [n, rng.choice(["x", "q", "+31 6", "@reboot"])]
+        vals = [n, rng.choice(["x", "q", "+31 6", "@reboot", "IN OR OUT", "in or OUT"])]
     elif k == "C":
         vals = [rng.choice(["x", "y"]), t(0), t(24 + i)]
     elif k == "A2":
@@ -129,6 +130,8 @@ def gen_source(rng, kind, idx, tier="quick", only=None):
     src = {"kind": kind, "idx": idx}
     if rng.random() < 0.1:
         src["pct"] = True
+    elif rng.random() < 0.08:
+        src["bracket"] = True
     n = rng.randrange(0, 7 if tier == "quick" else 30)
     if kind in ("good", "trunc", "readerr", "stdin"):
         src["recs"] = [gen_rec(rng, i, only) for i in range(n if kind == "good" or n else 3)]
@@ -308,6 +311,12 @@ def build_source(w, src, descs):
     base = "/simfs/in/s%d" % i
     if src.get("pct"):
         base = "/simfs/in/s%d-100%%25 %%41" % i  # a name that looks like URL escapes is just a name
+    if src.get("bracket"):
+        # a literal name with a bracket expression, next to a file the expression would match as a pattern
+        base = "/simfs/in/host[%d]" % i
+        decoy = make_record(descs, {"desc": "B", "values": [99, "decoy"], "meta": {}})
+        for ext in (".records", ".records.gz", ".json", ".bin", ".csv", ".avro", ".fd", ".jsonl"):
+            w.fs.put("/simfs/in/host%d%s" % (i, ext), stream_bytes([decoy])[0] if ext == ".records" else b"")
     if kind == "missing":
         return base + ".records", []
     if kind == "empty":
